@@ -36,6 +36,13 @@ struct SymGen {
 			z.put(y, win); ++feat["lit"]; return; }
 		if (k < 170) { ref::Sym y; y.kind = ref::Sym::MATCH; uint8_t db = c.byte();
 			uint32_t d = db < 50 ? 0 : (db < 90 ? lim - 1 : (db < 120 ? (lim > 1 ? lim - 2 : 0) : (db < 150 ? c.u(std::min<uint32_t>(lim, 16)) : c.u32() % lim)));
+			if (db >= 150 && db < 185) {
+				// distances around the decoder's circular-buffer write position (lz_decoder.h: buffer of dict' + 2*288 bytes, writing
+				// starts at 576 and continues at 288 after each wrap): copies that start right at / next to the physical buffer start
+				uint64_t n = win.size(), Dp = dict, pos = n <= Dp ? 576 + n : 288 + ((n - Dp) % (Dp + 288));
+				int64_t cand = (int64_t)pos + (int)(db % 5) - 2;
+				if (cand >= 0 && cand < (int64_t)lim) { d = (uint32_t)cand; ++feat["match_at_buffer_write_position"]; }
+			}
 			if (d == lim - 1 && lim > 1) ++feat[lim == dict ? "match_at_dict_size_minus_1" : "match_at_full_minus_1"];
 			y.a = d; y.b = draw_len(); if (y.b == 2) ++feat["len2"]; if (y.b >= 272) ++feat["len273"];
 			z.put(y, win); ++feat["match"]; return; }
@@ -185,6 +192,10 @@ static void mode_stream(Case &c) {
 		if (L.out != F.plain) { size_t d = 0; while (d < L.out.size() && d < F.plain.size() && L.out[d] == F.plain[d]) ++d; violation("C03:different-bytes", "synthesised valid .xz decodes to %zu bytes, by construction %zu, first difference at %zu", L.out.size(), F.plain.size(), d); }
 	}
 	for (auto &kv : F.feat) count("feat_" + kv.first, 1);
+	// optional export of small synthesised files as seed cases for the C04 target (8 parameter bytes + file), see corpus/C04/syn-*
+	if (const char *ex = getenv("VERIF_C03_EXPORT")) { if ((F.bytes.size() < 6000 || (F.bytes.size() < 70000 && F.feat.count("match_at_buffer_write_position") && getenv("VERIF_C03_EXPORT_BIG"))) && (F.feat.count("match_at_buffer_write_position") || F.feat.count("output_longer_than_dictionary") || F.feat.count("four_filters"))) {
+		static int nexp = 0; if (nexp < 400) { ++nexp; char nm[256]; snprintf(nm, sizeof nm, "%s/syn-%016llx", ex, (unsigned long long)hash_bytes(F.bytes.data(), F.bytes.size()));
+			FILE *f = fopen(nm, "wb"); if (f) { const uint8_t hdr[8] = {0 /* stream */, 0x08 /* flags as in the tests/files seeds */, 0, 0, 0, 1, 0, 0}; fwrite(hdr, 1, 8, f); fwrite(F.bytes.data(), 1, F.bytes.size(), f); fclose(f); } } } }
 	// mutation of the synthesised file
 	unsigned nm = c.small(3);
 	for (unsigned m = 0; m < nm; ++m) {
@@ -196,6 +207,25 @@ static void mode_stream(Case &c) {
 		{ std::string &d = g_stats.current; if (!d.empty() && d.back() == '}') { d.pop_back(); d += ",\"mutation\":\"" + mut + "\"}"; } }
 		compare(("mutated synthesised stream (" + mut + ")").c_str(), &F, dmg, F.has_bcj, XM.status, XM.out, XM.rule, LM);
 		count(XM.ok() ? "mutant_still_valid" : "mutant_invalid");
+	}
+	// field-aware mutation: change one byte inside a CRC32-protected structure (Stream Flags, Block Header incl. its size fields and
+	// filter flags, Index, footer fields) and recompute that CRC32, so that only the semantic checks can object
+	if (c.rare(150) && !X.streams.empty()) {
+		struct Cr { size_t b, e, at; }; std::vector<Cr> crs;
+		for (auto &S : X.streams) { for (auto &b : S.blocks) crs.push_back({b.hdr_off + 1, b.hdr_off + b.hdr_size - 4, b.hdr_off + b.hdr_size - 4});
+			crs.push_back({S.off + 6, S.off + 8, S.off + 8}); crs.push_back({S.index_off, S.index_off + S.index_size - 4, S.index_off + S.index_size - 4}); crs.push_back({S.footer_off + 4, S.footer_off + 10, S.footer_off}); }
+		Cr cr = crs[c.u((uint32_t)crs.size())]; size_t beg = cr.b == cr.at ? cr.b : (cr.b > 0 && cr.e - cr.b > 1 && cr.b == X.streams[0].blocks.size() * 0 + cr.b ? cr.b : cr.b);
+		size_t i = beg + c.u32() % (cr.e - beg); std::vector<uint8_t> dmg = F.bytes; uint8_t nv = c.flag() ? (uint8_t)(dmg[i] + 1) : (uint8_t)(dmg[i] ^ (1u << c.u(8)));
+		if (nv != dmg[i]) { dmg[i] = nv; size_t cb = cr.b == cr.at + 4 ? cr.b : cr.b; (void)cb;
+			// Block Header CRC covers the size byte too (hdr_off .. hdr_off+hdr_size-4); the other structures start at cr.b
+			size_t crc_from = cr.b; for (auto &S : X.streams) for (auto &b : S.blocks) if (cr.at == b.hdr_off + b.hdr_size - 4) crc_from = b.hdr_off;
+			uint32_t crc = ref::crc32(dmg.data() + crc_from, cr.e - crc_from); for (int k = 0; k < 4; ++k) dmg[cr.at + k] = (uint8_t)(crc >> (8 * k));
+			ref::XzResult XM = ref::xz_decode(dmg.data(), dmg.size(), xo);
+			lzma_stream s2 = LZMA_STREAM_INIT; s2.allocator = AL(); if (lzma_stream_decoder(&s2, UINT64_MAX, LZMA_CONCATENATED) != LZMA_OK) harness_bug("decoder init");
+			drv::Opts o2; o2.out_cap = F.plain.size() + (1u << 20); drv::Result LM = drv::run(&s2, dmg.data(), dmg.size(), drv::Schedule(), o2); lzma_end(&s2);
+			{ std::string &d = g_stats.current; if (!d.empty() && d.back() == '}') { d.pop_back(); d += ",\"crc_consistent_edit_at\":" + std::to_string(i) + "}"; } }
+			compare("synthesised stream with a CRC-consistent field edit", &F, dmg, F.has_bcj, XM.status, XM.out, XM.rule, LM);
+			count(XM.ok() ? "field_edit_still_valid" : "field_edit_invalid"); }
 	}
 	nontrivial(hcomb(hash_bytes(F.bytes.data(), F.bytes.size()), sch.hash()));
 }
